@@ -713,3 +713,69 @@ def sortcmp(ctx):
                "equal frequencies are not broken by ascending id (%s): the order of tied ids "
                "depends on the unstable sort" % (tie[:2] if tie else "no tie-break",))
         k += 1
+
+
+def optkeep_tokenizer(ctx):
+    optkeep(ctx, lambda p: "tokenizer::Tokenizer::" in p)
+
+
+def optkeep_dictionary(ctx):
+    optkeep(ctx, lambda p: "dictionary::Dictionary::" in p)
+
+
+def optkeep(ctx, only=None):
+    """OPTKEEP: a by-value, builder-style method (`fn(mut self, ..) -> Self | Result<Self>`) returns
+    the value it was given, with fields assigned in place. If it builds a new value instead, every
+    field it does not set explicitly must be taken from `self` - not from a fresh `Self::new(..)` /
+    `Default`, which silently resets the options configured by earlier calls (the result then
+    depends on the order in which the options were applied)."""
+    crate = ctx.facts("A").lib
+    E = Effects(crate)
+    n = 0
+    for p, f in sorted(crate.fns.items()):
+        if not f.body or f.krate != "vibrato" or f.j.get("kind") == "Closure":
+            continue
+        adt = f.j.get("impl_self_adt")
+        if not adt or f.j.get("impl_trait"):
+            continue
+        fa = E.fa(p)
+        if fa.arg_count < 1:
+            continue
+        t1 = fa.fn.locals[1]["ty"]
+        if strip_generics(t1) != strip_generics(adt) and not t1.startswith(adt):
+            continue
+        out = f.j.get("output", "")
+        if not (strip_generics(out) == strip_generics(adt) or out.startswith(adt) or
+                ("Result<" in out and adt in out.split(",")[0])):
+            continue
+        if only and not only(p):
+            continue
+        n += 1
+        # every value of the ADT that reaches the return place
+        bad = []
+        kept = 0
+        for b, i, s in fa.stmts():
+            rv = s.get("rv")
+            if rv and rv["k"] == "agg" and rv.get("agg") == "adt" and strip_generics(rv["adt"]) == strip_generics(adt):
+                for fname, o in zip(rv.get("fields", []), rv["ops"]):
+                    oo = fa.origin(o)
+                    src = None
+                    if oo[0] == "place":
+                        ap = oo[1]
+                        if ap.root[0] == "call":
+                            ct = fa.term(ap.root[1])
+                            cps = " ".join(callee_paths(ct))
+                            rty = fa.fn.locals[ct["dest"]["l"]]["ty"]
+                            if rty.startswith(adt) or strip_generics(rty) == strip_generics(adt):
+                                src = "a fresh %s" % sorted({strip_generics(x).rsplit("::", 1)[-1] for x in callee_paths(ct)})[0]
+                    if src:
+                        bad.append("field `%s` from %s() (%s)" % (fname, src, fa.loc(b, i)))
+                    else:
+                        kept += 1
+        ctx.ob("OPTKEEP", "%s|keeps-other-fields" % p, not bad, "%s:%s" % (f.file, f.line),
+               "%s returns its receiver (or rebuilds it field by field from self)" % p.split("::")[-1]
+               if not bad else
+               "%s rebuilds the value and takes %s: what earlier builder calls had configured is "
+               "reset, so the result depends on the order of the option calls"
+               % (p.split("::")[-1], "; ".join(bad)))
+    ctx.floor("OPTKEEP", "by-value builder methods", n, 2 if only else 6)
